@@ -399,10 +399,10 @@ def enum_cases(tier):
             k += 1
             yield _mk(scheme, USERINFO[k % len(USERINFO)], host, port, PATHS[k % len(PATHS)], QUERIES[k % len(QUERIES)], FRAGS[k % len(FRAGS)], route)
             if port in (None, "8080", "default") and scheme in ("http", "https") and build_url({"scheme": scheme, "host": host, "path": PATHS[k % len(PATHS)], "query": QUERIES[k % len(QUERIES)]}).isascii():
-                yield dict(_mk(scheme, None, host, port, PATHS[k % len(PATHS)], QUERIES[k % len(QUERIES)], None, route), via_redirect=True, rpol=("default", "rm-empty", "int")[(k + k // 3) % 3])
+                yield dict(_mk(scheme, None, host, port, PATHS[k % len(PATHS)], QUERIES[k % len(QUERIES)], None, route), via_redirect=True, rpol=core.pick(k, 1, ("default", "rm-empty", "int")))
             if port in (None, "8080") and scheme in ("http", "https"):
                 # the manager (with manager-level headers, or a header mapping the caller reuses) has just served another origin
-                yield dict(_mk(scheme, None, host, port, PATHS[k % len(PATHS)], QUERIES[k % len(QUERIES)], None, route), prior=(("mgr-headers", "shared-dict", "proxy-headers-tunnel")[k % 3] if route != "direct" else ("mgr-headers", "shared-dict")[k % 2]), via_redirect=bool(k % 3 == 0) and build_url({"scheme": scheme, "host": host, "path": PATHS[k % len(PATHS)], "query": QUERIES[k % len(QUERIES)]}).isascii())
+                yield dict(_mk(scheme, None, host, port, PATHS[k % len(PATHS)], QUERIES[k % len(QUERIES)], None, route), prior=(core.pick(k, 2, ("mgr-headers", "shared-dict", "proxy-headers-tunnel")) if route != "direct" else core.pick(k, 2, ("mgr-headers", "shared-dict"))), via_redirect=core.pick(k, 3, (True, False, False)) and build_url({"scheme": scheme, "host": host, "path": PATHS[k % len(PATHS)], "query": QUERIES[k % len(QUERIES)]}).isascii())
     for path, query, frag, ui in itertools.product(PATHS, QUERIES, FRAGS, USERINFO):
         k += 1
         if tier == "quick" and k % 3:
